@@ -49,3 +49,35 @@ func VerifC14Renderings() {
 	vAssert(String(plain) == secret, "opaque/explicit-conversion-returns-the-secret")
 	vReach("end")
 }
+
+// VerifC14AllVerbs: every fmt verb x flag combination — including the verbs that are invalid for
+// strings, which fmt renders through its reflection-based "bad verb" path without consulting
+// String() — and Sprint/Sprintln/Errorf wrapping: the rendering of an opaque value must not depend
+// on the secret it holds.  Oracle: it equals the rendering of an opaque value holding a fixed,
+// different secret.
+func VerifC14AllVerbs() {
+	n := 1 + vChoice("secret-len", 3)
+	secret := String(vNondetString("secret", n))
+	ref := String("a-different-secret")
+	verbs := "vsqxXdtcUeEfFgGboOT" // %p: see the end
+	flags := []string{"", "+", "#", "-8", " ", "08", ".2", "+#"}
+	for _, fl := range flags {
+		for i := 0; i < len(verbs); i++ {
+			f := "%" + fl + verbs[i:i+1]
+			vAssert(fmt.Sprintf(f, secret) == fmt.Sprintf(f, ref), "opaque/rendering-independent-of-the-secret/verb-%"+verbs[i:i+1])
+		}
+	}
+	vAssert(fmt.Sprint(secret) == fmt.Sprint(ref), "opaque/rendering-independent-of-the-secret/Sprint")
+	vAssert(fmt.Sprint("token", secret, 3) == fmt.Sprint("token", ref, 3), "opaque/rendering-independent-of-the-secret/Sprint-with-other-operands")
+	vAssert(fmt.Sprintln(secret) == fmt.Sprintln(ref), "opaque/rendering-independent-of-the-secret/Sprintln")
+	vAssert(fmt.Errorf("auth %w failed for %v", fmt.Errorf("inner %s", secret), secret).Error() == fmt.Errorf("auth %w failed for %v", fmt.Errorf("inner %s", ref), ref).Error(), "opaque/rendering-independent-of-the-secret/Errorf-wrapping")
+	// pointer to an opaque value: %v of a pointer prints an address, %s/%d go through the bad-verb path
+	vAssert(fmt.Sprintf("%s|%d", &secret, &secret) != "", "opaque/pointer-rendering-terminates")
+	vReach("end")
+	// %p last: fmt handles it before it looks for any method of the operand (Formatter included), so
+	// for a non-pointer operand it always takes the bad-verb path, which prints the underlying string
+	for _, fl := range flags {
+		f := "%" + fl + "p"
+		vAssert(fmt.Sprintf(f, secret) == fmt.Sprintf(f, ref), "opaque/rendering-independent-of-the-secret/verb-%p")
+	}
+}
